@@ -3,7 +3,8 @@
    All statements hold for ARBITRARY begin / vertex* / end sequences (positions, sides and
    ids unconstrained), hence in particular for every y-monotone polygon. *)
 From Coq Require Import QArith.
-From LV Require Import Base.Prelude Base.F32 Model.Bezier Model.Monotone Proofs.C02_Monotone.
+From LV Require Import Base.Prelude Base.F32 Model.Bezier Model.Winding Model.Monotone Model.MonotoneArea
+                       Proofs.C02_Monotone Proofs.C02_Area.
 Open Scope Q_scope.
 
 Definition input_ids (first : qpt * Z) (vs : list (qpt * Z * bool)) (last : qpt * Z) : list Z :=
@@ -52,6 +53,62 @@ Theorem C02_advanced_ids : forall first vs last,
   Forall (tri_ids_in (input_ids first vs last)) (adv_run first vs last).
 Proof. exact advanced_ids. Qed.
 
+(* ---------------------------------------------------------------- areas
+   [P] resolves the ids to positions; [tri_area2] is twice the signed area of an emitted triangle;
+   [polygon_area2] is the shoelace sum of the polygon described by the sequence (begin, the
+   left-side vertices in order, end, the right-side vertices in reverse).  Everything below holds
+   for ARBITRARY sequences - no monotonicity is assumed. *)
+
+(* no flipped triangle: every triangle the basic tessellator emits has the same orientation *)
+Theorem C02_basic_orientation : forall P first vs last, resolves P first vs last ->
+  Forall (fun t => tri_area2 P t <= 0) (basic_run first vs last).
+Proof. exact basic_orientation. Qed.
+
+(* area conservation: before the orientation of the fan triangles is normalised, the triangles add
+   up to the polygon's area exactly *)
+Theorem C02_basic_area_conserved : forall P first vs last, resolves P first vs last ->
+  sum_area2 P (basic_run_nat first vs last) == polygon_area2 first vs last.
+Proof. exact basic_nat_conserved. Qed.
+
+(* the emitted triangles are those, up to the order of the first two vertices *)
+Theorem C02_basic_same_triangles : forall first vs last,
+  Forall2 tri_same_or_swapped (basic_run_nat first vs last) (basic_run first vs last).
+Proof. exact basic_nat_swapped. Qed.
+
+(* hence the emitted triangles never leave a gap in the area sense: their total (unsigned) area
+   is at least the polygon's ... *)
+Theorem C02_basic_area_bound : forall P first vs last, resolves P first vs last ->
+  sum_area2 P (basic_run first vs last) <= polygon_area2 first vs last /\
+  sum_area2 P (basic_run first vs last) <= - polygon_area2 first vs last.
+Proof. exact basic_area_bound. Qed.
+
+(* ... and equals it exactly - no overlap in the area sense - when no fan triangle had to be flipped
+   (the case of a properly oriented y-monotone polygon; checked per run) *)
+Theorem C02_basic_area_exact : forall P first vs last, resolves P first vs last ->
+  Forall (fun t => tri_area2 P t <= 0) (basic_run_nat first vs last) ->
+  sum_area2 P (basic_run first vs last) == polygon_area2 first vs last.
+Proof. exact basic_area_exact. Qed.
+
+(* flush_side (advanced tessellator): the triangles of a pending chain add up to the chain
+   polygon's area exactly, for ALL chains and lengths *)
+Theorem C02_flush_area : forall right pts,
+  flush_area2 right pts == (if right then - chain_area2 pts else chain_area2 pts).
+Proof. exact flush_area. Qed.
+
+(* non-vacuity: a non-monotone sequence where the bound is strict, and a monotone one where it is exact *)
+Example C02_example_area :
+  let P1 := fun i : Z => match i with 0%Z => (0,0) | 1%Z => (5,1) | 2%Z => (-(3),2) | 4%Z => (2,-(2)) | 5%Z => (-(2),3)
+                                    | 6%Z => (1,-(3)) | _ => (0,5) end in
+  let vs1 := [((5,1), 1%Z, true); ((-(3),2), 2%Z, false); ((2,-(2)), 4%Z, false); ((-(2),3), 5%Z, true); ((1,-(3)), 6%Z, true)] in
+  Qred (sum_area2 P1 (basic_run_nat ((0,0), 0%Z) vs1 ((0,5), 3%Z))) = 13 /\
+  Qred (polygon_area2 ((0,0), 0%Z) vs1 ((0,5), 3%Z)) = 13 /\
+  Qred (sum_area2 P1 (basic_run ((0,0), 0%Z) vs1 ((0,5), 3%Z))) = -(103) /\
+  let P2 := fun i : Z => match i with 0%Z => (0,0) | 1%Z => (1,1) | 2%Z => (-(1),2) | _ => (0,3) end in
+  let vs2 := [((1,1), 1%Z, false); ((-(1),2), 2%Z, true)] in
+  Qred (sum_area2 P2 (basic_run ((0,0), 0%Z) vs2 ((0,3), 3%Z))) = -(6) /\
+  Qred (polygon_area2 ((0,0), 0%Z) vs2 ((0,3), 3%Z)) = -(6).
+Proof. vm_compute. repeat split; reflexivity. Qed.
+
 Example C02_example :
   adv_run ((0,0), 0%Z) [((1,1), 1%Z, false); ((-(1),2), 2%Z, true)] ((0,3), 3%Z)
   = basic_run ((0,0), 0%Z) [((1,1), 1%Z, false); ((-(1),2), 2%Z, true)] ((0,3), 3%Z)
@@ -66,3 +123,9 @@ Print Assumptions C02_flush_indices.
 Print Assumptions C02_flush_fuel.
 Print Assumptions C02_advanced_count.
 Print Assumptions C02_advanced_ids.
+Print Assumptions C02_basic_orientation.
+Print Assumptions C02_basic_area_conserved.
+Print Assumptions C02_basic_same_triangles.
+Print Assumptions C02_basic_area_bound.
+Print Assumptions C02_basic_area_exact.
+Print Assumptions C02_flush_area.
